@@ -88,6 +88,14 @@ CHECKS = {
         "search_bisection/search_bisection_vec that the returned index is the first element >= query (clipped) and that both agree; CubicHermiteInterp is exact (value and gradient) "
         "on the general cubic with symbolic coefficients, interval of either orientation, symbolic evaluation point, scalar and array data.", "DESIGN.md 3/C17",
         "Array lengths <= 6 (quick) / 7 (thorough); vector queries <= 2 / 3."),
+    "C14": _entry("other",
+        "For every feasible path of the real brentsroot and brentsrootvec (1-3 components) under the unwinding assumption |b-a| <= 2^k*tol, z3 shows for ALL real brackets (either order), "
+        "tolerances in [4*eps64, 1e-3] (plus None and below-floor) and function parameters of the families linear s*(x-r) (s = +-1e-6..1e9 concrete and symbolic; root inside/outside/at an "
+        "end) and jump (-u | +v): the returned point lies in the closed bracket or no success is claimed; a bracketed sign change is located to within tol and success is reported; "
+        "success implies |f| <= tol or a sign change within tol; no sign change and |f| > tol at both ends implies no success; the loop never reaches the iteration cap; vector and "
+        "scalar solver agree whenever f(a)f(b) < 0.  A bit-precise QF_FP lemma exhibits adjacent floats bracketing a sign change with both residuals above tol and the real code is run on it.",
+        "DESIGN.md 3/C14", "k = 4/3 halvings (quick), 8/7 (thorough); vector lengths 1..3; two-root quadratics thorough-only (may end inconclusive). Known findings: "
+        "c14.absolute_residual_success (flat functions, literal reading), c14.vec_unbracketed_result."),
     "C16": _entry("other",
         "Real JacobianWrapper (adaptive and fixed Richardson depth, flat both ways, base order 2/4/5) on affine maps with symbolic A, f(y), y (shapes scalar, (2,)->(2,), (3,)->(2,), "
         "(2,2)->(3,)) and polynomial maps of degree <= 4: entry [i...,j...] equals df_i/dy_j up to the rounding noise of the float64 stencil weights, shape (*shape f, *shape y); the "
